@@ -1,6 +1,7 @@
 #!/bin/sh
 # usage: tools/try_mutant.sh <patch.diff> <check-id>...   (applies to /repo, runs, always reverts)
 set -u
+export VERIF_EVIDENCE_DIR=/tmp/verif-trial-evidence VERIF_REPLAYS_DIR=/tmp/verif-trial-replays
 P="$1"; shift
 cd /repo || exit 2
 if ! git diff --quiet; then echo "REPO DIRTY - refusing"; exit 2; fi
